@@ -34,8 +34,12 @@ PROB = {
     'epytext': {'xref': 'L{nopeX}', 'markup': 'B{unclosedX', 'field': '@fooX: bar', 'param': '@param zzX: nothing'},
     'restructuredtext': {'xref': '`nopeX`', 'markup': ':bogusX:`role`', 'field': ':fooX: bar', 'param': ':param zzX: nothing'},
     'google': {'xref': '`nopeX`', 'param': 'Args:\n    zzX: nothing'},
-    'numpy': {'xref': '`nopeX`', 'param': 'Parameters\n----------\nzzX: int\n    nothing'},
+    'numpy': {'xref': '`nopeX`', 'param': 'Parameters\n----------\nzzX: int\n    nothing', 'typexref': 'Parameters\n----------\na: zzX\n    the a', 'rtypexref': 'Returns\n-------\nzzX\n    the result'},
+    # --process-types: the names in type fields are cross-references of their own (google and numpy always work that way)
+    'epytext+pt': {'typexref': '@param a: the a\n@type a: zzX', 'rtypexref': '@return: the result\n@rtype: zzX'},
+    'restructuredtext+pt': {'typexref': ':param a: the a\n:type a: zzX', 'rtypexref': ':return: the result\n:rtype: zzX'},
 }
+PROB['google'].update({'typexref': 'Args:\n    a (zzX): the a', 'rtypexref': 'Returns:\n    zzX: the result'})
 POSITIONS = ['p1l1', 'p1l2', 'p2', 'li', 'fb', 'sections', 'after-linesep', 'directive-body', 'directive-arg', 'directive-body-line2']
 OWNERS = ['module', 'class', 'function', 'method', 'attribute', 'inherited', 'reexported', 'classfield', 'classfield+inline', 'typefield+inline', 'ivar-two-sites', 'attr-redefined', 'classtypefield', 'modvarfield', 'modtypefield', 'class-redefined', 'function-redefined', 'class-redefined-both-bad', 'inherited-rendered-first']
 # (text on the opening line, leading lines below the quotes)
@@ -48,7 +52,8 @@ def body_for(fmt: str, kind: str, pos: str) -> Optional[Tuple[List[str], int, in
     if p is None:
         return None
     p = p.replace('X', '1')
-    if kind in ('field', 'param'):
+    fmt = fmt.split('+')[0]
+    if kind in ('field', 'param', 'typexref', 'rtypexref'):
         if pos != 'p1l1':
             return None
         pl = p.split('\n')
@@ -103,7 +108,10 @@ def module_source(owner: str, fmt: str, kind: str, pos: str, layout: Tuple[bool,
     ATTRS = ('attribute', 'typefield+inline', 'ivar-two-sites', 'attr-redefined')
     if owner in ('class-redefined', 'function-redefined', 'class-redefined-both-bad') and (nest or raw or layout[1] not in ([], ['']) or kind == 'param' or pos == 'fb'):
         return None
+    fmt = fmt.split('+')[0]
     if kind == 'param' and owner in ('module', 'class') + ATTRS:
+        return None
+    if kind in ('typexref', 'rtypexref') and owner not in ('function', 'method', 'inherited', 'reexported', 'function-redefined', 'inherited-rendered-first'):
         return None
     if pos == 'fb' and owner in ('module', 'class') + ATTRS:
         return None
@@ -290,7 +298,8 @@ def run_batch(fmt: str, batch: Sequence[Tuple[Any, ...]], res: Dict[str, Any]) -
             meta[name] = (kind, owner, pos, li, nest, raw, deco, k, pl, bs, ext, src)
     if reexports:
         files['pk/__init__.py'] += '__all__ = ' + repr(reexports) + '\n'
-    with pd.cli_run(files, ['--docformat', fmt, '-W'], roots=['pk']) as r:
+    pseudo = fmt
+    with pd.cli_run(files, ['--docformat', fmt.split('+')[0], '-W'] + (['--process-types'] if fmt.endswith('+pt') else []), roots=['pk']) as r:
         if r.exc or r.status not in (0, 2, 3):
             res['violations'].append(core.violation(f'run-failed/{r.exc_type}@{r.exc_site}', f'driver failed: {r.exc_type} {r.status}', {'kind': 'batch', 'fmt': fmt, 'batch': [list(b) for b in batch]}))
             return
@@ -331,7 +340,7 @@ def run_batch(fmt: str, batch: Sequence[Tuple[Any, ...]], res: Dict[str, Any]) -
                 continue
             nline = int(ln)
             nums.append(nline)
-            lo, hi = (bs, pl) if fmt in ('epytext', 'restructuredtext') else ext
+            lo, hi = (bs, pl) if fmt.split('+')[0] in ('epytext', 'restructuredtext') else ext
             if not (lo <= nline <= hi):
                 rel = 'before' if nline < lo else 'after'
                 # google / numpy: only "inside the docstring" is demanded, so owner and layout of the literal do not select different behaviour
@@ -356,11 +365,23 @@ def run_batch(fmt: str, batch: Sequence[Tuple[Any, ...]], res: Dict[str, Any]) -
 
 # ---- exit statuses (single-problem runs)
 
+# markup the parser only WARNS about (it recovers and goes on): still a docstring that "could not be parsed" as written - reported, and counted
+WARN_DOCS = {
+    'epytext': {'warn:malformed-field': 'Text.\n\n@param a b c', 'warn:field-space': 'Text.\n\n@ param a: x', 'warn:indentation': 'Text\n  - item\n continued oddly'},
+    'restructuredtext': {'warn:emphasis': 'Text *unclosed emphasis here.', 'warn:strong': 'Text **unclosed strong.', 'warn:short-underline': 'Title\n==\n\ntext', 'warn:list-end': '- item\ntext after'},
+    'google': {'warn:emphasis': 'Text *unclosed emphasis.', 'warn:list-end': 'Text.\n\n- item\ntext after'},
+    'numpy': {'warn:strong': 'Text **unclosed.', 'warn:short-underline': 'Text.\n\nTitle\n==\n\ntext'},
+}
+
+
 def status_cases() -> Iterable[Tuple[str, str, str]]:
-    for fmt in PROB:
+    for fmt in WARN_DOCS:
+        for kind in WARN_DOCS[fmt]:
+            yield (fmt, kind, '')
         yield (fmt, 'clean', '')
         for kind in PROB[fmt]:
-            yield (fmt, kind, '')
+            if kind in ('xref', 'markup', 'field', 'param'):
+                yield (fmt, kind, '')
         yield (fmt, 'markup+xref', '') if 'markup' in PROB[fmt] else (fmt, 'clean2', '')
 
 
@@ -372,6 +393,10 @@ def run_status(fmt: str, kind: str, res: Dict[str, Any]) -> None:
     elif kind == 'bad-annotation':
         src = 'def f(a: "(") -> int:\n    """Fine."""\n'
         fatal = True
+        any_problem = True
+    elif kind.startswith('warn:'):
+        src = 'def f(a):\n    """\n' + ''.join('    ' + l + '\n' for l in WARN_DOCS[fmt][kind].split('\n')) + '    """\n'
+        fatal = True        # reported as a bad docstring: counted like one
         any_problem = True
     elif kind == 'markup+xref':
         b = body_for(fmt, 'markup', 'p2')
